@@ -148,6 +148,11 @@ func init() {
 			lw.Write(map[string]any{"id": "conc:lb:" + pn, "kind": "lb", "slen": 0, "solo": []vh.Ev{}, "together": []vh.Ev{}, "badSelections": bad})
 		}
 
+		// the shipped protocol matchers, provisioned once and shared by all connections
+		if err := concRealMatchers(ctx, lw, *n); err != nil {
+			return err
+		}
+
 		// one client, two peers of one upstream writing to it at the same time
 		if err := concProxyTwoPeers(); err != nil {
 			return err
@@ -217,5 +222,109 @@ func concProxyTwoPeers() error {
 	case <-time.After(3 * time.Second):
 	}
 	b.Close()
+	return nil
+}
+
+
+// concRealMatchers: one server whose routes use the shipped protocol matchers (one matcher instance per route, shared by
+// every connection); each connection sends a valid first message of one protocol; the route that runs must be the same
+// when the connection is alone and when all run at once.
+func concRealMatchers(ctx caddy.Context, lw *vh.LineWriter, n int) error {
+	mk := func(proto, netw string, cfg, msg map[string]any) *wireVec {
+		return &wireVec{Proto: proto, Net: netw, Cfg: cfg, Msg: msg}
+	}
+	ovCfg := map[string]any{"modes": []any{}, "ignore_timestamp": false, "ignore_crypto": false, "group_key": "k1", "auth_digest": "", "direction": "", "server_key": "s1", "client_keys": "none"}
+	ov := func(mode, digest string) map[string]any {
+		return map[string]any{"mode": mode, "opcode": "ok", "keyid": 0.0, "session": "nonzero", "digest": digest, "rpid": "one", "ts": "now", "acks": 0.0, "pid": 0.0, "sig": "a", "lenfield": "exact", "wk": "ok"}
+	}
+	none := map[string]any{}
+	vecs := []*wireVec{
+		mk("openvpn", "tcp", ovCfg, ov("auth", "md5")), mk("openvpn", "tcp", ovCfg, ov("auth", "sha256")), mk("openvpn", "tcp", ovCfg, ov("auth", "sha512")),
+		mk("openvpn", "tcp", ovCfg, ov("auth", "sha1")), mk("openvpn", "tcp", ovCfg, ov("crypt", "sha256")), mk("openvpn", "tcp", ovCfg, ov("crypt2", "sha256")),
+		mk("ssh", "tcp", none, map[string]any{"magic": "SSH-", "version": "2.0"}),
+		mk("http", "tcp", map[string]any{"filter": "host"}, map[string]any{"method": "GET", "path": "/api/x", "version": "HTTP/1.1", "eol": "crlf", "host": "example.com", "xtest": false, "complete": true}),
+		mk("socks5", "tcp", map[string]any{"auth_methods": []any{}}, map[string]any{"ver": 5.0, "methods": []any{0.0, 2.0}, "declared": "exact"}),
+		mk("regexp", "tcp", map[string]any{"pattern": "^HELO[0-9]+$", "count": 8.0}, map[string]any{"text": "HELO1234"}),
+		mk("tls", "tcp", map[string]any{"sni": []any{"a.example.com"}, "alpn": []any{}}, map[string]any{"kind": "hello", "sni": "a.example.com", "alpn": "h2"}),
+	}
+	// one route per (protocol, configuration); the same matcher instance serves every connection of that protocol
+	var routes []map[string]any
+	routeOf := map[string]int{}
+	cases := make([]*wireCase, len(vecs))
+	for i, v := range vecs {
+		wc, err := wireEncode(v)
+		if err != nil {
+			return err
+		}
+		cases[i] = wc
+		raw, _ := json.Marshal(wc.cfg)
+		key := wc.module + string(raw)
+		if _, ok := routeOf[key]; !ok {
+			routeOf[key] = len(routes) + 1
+			routes = append(routes, map[string]any{"match": []map[string]any{{wc.module: wc.cfg}},
+				"handle": []map[string]any{{"handler": "verif_h", "k": "mark", "l": 1, "r": len(routes) + 1}, {"handler": "verif_h", "k": "term", "l": 1, "r": len(routes) + 1}}})
+		}
+	}
+	srv := &layer4.Server{MatchingTimeout: caddy.Duration(5 * time.Second)}
+	raw, _ := json.Marshal(routes)
+	if err := json.Unmarshal(raw, &srv.Routes); err != nil {
+		return err
+	}
+	if err := srv.Provision(ctx, zap.NewNop()); err != nil {
+		return err
+	}
+	one := func(i int) []vh.Ev {
+		k := i % len(vecs)
+		// OpenVPN messages carry the current time: encode afresh
+		wc := cases[k]
+		if vecs[k].Proto == "openvpn" {
+			wc, _ = wireEncode(vecs[k])
+		}
+		stream := append(append([]byte{}, wc.first...), filler(40, byte(i))...)
+		if vecs[k].Proto == "openvpn" {
+			stream = wc.first // the matcher wants the message alone
+		}
+		rec := vh.NewRecorder(stream)
+		addr := &net.TCPAddr{IP: net.IPv4(10, 5, byte(i>>8), byte(i)), Port: 20000 + i%40000}
+		vh.RegisterRec(addr.String(), rec)
+		defer vh.UnregisterRec(addr.String())
+		pulls := []int{}
+		if i%2 == 1 {
+			pulls = []int{3, 1, 64}
+		}
+		sc := &vh.ScriptConn{Rec: rec, Slen: len(stream), EndKind: "eof", Pulls: pulls, Start: time.Now(), Unit: time.Hour, Remote: addr}
+		layer4.VerifServerHandle(srv, sc)
+		var out []vh.Ev
+		for _, e := range rec.Snapshot() {
+			switch e["e"] {
+			case "Handle", "HRead", "Term", "HErr":
+				delete(e, "t")
+				out = append(out, e)
+			}
+		}
+		return out
+	}
+	solo := make([][]vh.Ev, n)
+	for i := 0; i < n; i++ {
+		solo[i] = one(i)
+	}
+	together := make([][]vh.Ev, n)
+	var wg sync.WaitGroup
+	start := make(chan struct{})
+	for i := 0; i < n; i++ {
+		wg.Add(1)
+		go func(i int) {
+			defer wg.Done()
+			<-start
+			together[i] = one(i)
+		}(i)
+	}
+	close(start)
+	wg.Wait()
+	for i := 0; i < n; i++ {
+		k := i % len(vecs)
+		want := routeOf[func() string { raw, _ := json.Marshal(cases[k].cfg); return cases[k].module + string(raw) }()]
+		lw.Write(map[string]any{"id": fmt.Sprintf("conc:matcher:%d:%s", i, vecs[k].Proto), "kind": "matcher", "slen": len(cases[k].first), "solo": nonNil(solo[i]), "together": nonNil(together[i]), "wantRoute": want})
+	}
 	return nil
 }
